@@ -723,7 +723,7 @@ func runC42(r *rand.Rand, c *c42run, onDisk bool) (key, what string) {
 
 func checkC42(r *ev.Run) {
 	n := r.N(100, 3000)
-	r.Rule("case = one generated chain segment of 3-14 blocks (0-40 txs each; heights start at 1..2^40 and cross digit-count boundaries) with 2-7 addresses shared as signers and recipients (some differing in one byte), outcomes ok / handler failure (indexed) / ante-handler failure auth:1-8 and replayed bytes auth:6 (not indexed) / undecodable (no signer, no recipient) / nil recipient, fed to the real TransactionIndexer with AddBatch per block (Index per tx for 1 block in 4), on MemDB (even cases) or on-disk goleveldb closed and reopened twice (odd cases). Reference = slice of the must-be-indexed records sorted by (height, index). Checked: Get(hash) of every tx (indexed: stored content; ante failure: absent; replay: original kept), Search tx.hash, Search tx.height for every block and for absent heights, Search tx.signer / tx.recipient for every address in both roles and a stranger: full result in both sort directions, then every page size 1..n+1, every page up to one past the end: page content, page length, total. Non-trivial = an address query with >=2 matches over >=2 heights and a height query with >=2 indexed txs both went through the page sweep; distinct = dataset digest + backend.")
+	r.Rule("case = one generated chain segment of 3-14 blocks (0-40 txs each; heights start at 1..2^40 and cross digit-count boundaries) with 2-7 addresses shared as signers and recipients (some differing in one byte), outcomes ok / handler failure (indexed) / ante-handler failure auth:1-8 and replayed bytes auth:6 (not indexed) / undecodable (no signer, no recipient) / nil recipient, fed to the real TransactionIndexer with AddBatch per block (Index per tx for 1 block in 4), on MemDB (even cases) or on-disk goleveldb closed and reopened twice (odd cases). Reference = slice of the must-be-indexed records sorted by (height, index). Checked: Get(hash) of every tx (indexed: stored content; ante failure: absent; replay: original kept), Search tx.hash, Search tx.height for every block and for absent heights, Search tx.signer / tx.recipient for every address in both roles and a stranger: full result in both sort directions, then every page size 1..n+1, every page up to one past the end: page content, page length, total. One more case (deep-N): a signer with 10 500-13 000 indexed transactions paged through with pages of 1000 and of 700-999 in both directions (offsets beyond the 10 000 page-size clamp): every match exactly once, in order, total exact. Non-trivial = an address query with >=2 matches over >=2 heights and a height query with >=2 indexed txs both went through the page sweep; distinct = dataset digest + backend.")
 	r.Assume("results whose codespace is \"auth\" with code 1..8 are the ante-handler failures that are not indexed (types/indexer.go AnteHandlerMaxError, x/auth/types/error.go); auth codes >= 9 are not generated")
 	r.Assume("the combined query \"<address> AND tx.height=h\" is outside the statement: exactly-h and from-h-on are both accepted and counted (addr_height_*)")
 	ev.ForEach(n, workers(), func(i int) {
@@ -782,4 +782,5 @@ func checkC42(r *ev.Run) {
 			r.Sample(c.sample)
 		}
 	})
+	c42Deep(r)
 }
